@@ -1006,3 +1006,15 @@ Proof.
   - repeat constructor.
   - repeat constructor; cbn; lia.
 Qed.
+
+(* with the lock (the tree as repaired) none of the three schedules can take the fatal step, and
+   letting the blocked reader wait gives every call its sequential output *)
+Lemma locked_blocks_mutual : run te_mutual true (init vs_mutual) sched_mutual = None.
+Proof. vm_compute. reflexivity. Qed.
+Lemma locked_blocks_same : run te_same true (init vs_same) sched_same = None.
+Proof. vm_compute. reflexivity. Qed.
+
+Lemma locked_enclosing_completes :
+  exists st, run te_enclosing true (init vs_enclosing) ([0; 0] ++ repeat 1 8 ++ repeat 0 4 ++ repeat 1 2) = Some st /\
+             finished st = true /\ map out (threads st) = map seq_out vs_enclosing.
+Proof. eexists. split; [vm_compute; reflexivity|]. split; reflexivity. Qed.
